@@ -208,6 +208,75 @@ Theorem C04_oracle_sound : forall hist scripts ncfg r x,
 Proof. exact oracle_sound. Qed.
 Print Assumptions C04_oracle_sound.
 
+(* One app over time: registrations interleaved with requests.  Lookups are pure (nothing is
+   memoised into the registry) and every lookup follows the nearest/latest rule over the
+   registrations made so far. *)
+Theorem C04_lookup_pure : forall r mro, snd (lookup r mro) = r.
+Proof. exact lookup_pure. Qed.
+Print Assumptions C04_lookup_pure.
+
+Theorem C04_session_is_nearest : forall ops hist,
+  run_ops (replay init_registry hist) ops = spec_ops hist ops.
+Proof. exact session_is_nearest. Qed.
+Print Assumptions C04_session_is_nearest.
+
+Theorem C04_later_registration_wins : forall hist mro c h pre post,
+  removelast mro = pre ++ c :: post ->
+  (forall c', In c' pre -> latest (init_assignments ++ assignments hist) c' = None) ->
+  run_ops (replay init_registry hist) [OLookup mro; OReg ([(c, true)], h); OLookup mro]
+  = [spec_handler hist mro; Some h].
+Proof. exact later_registration_wins. Qed.
+Print Assumptions C04_later_registration_wins.
+
+(* The '+json' / '+xml' fallbacks are substring tests on the whole lower-cased Accept header. *)
+Theorem C04_contains_spec : forall s p, contains s p = true <-> exists a b, s = a ++ p ++ b.
+Proof. exact contains_spec. Qed.
+Print Assumptions C04_contains_spec.
+
+Theorem C04_fallback_json : forall n a b,
+  n_preferred n = None -> lower (n_accept n) = a ++ s_plus_json ++ b ->
+  final_preferred n = Some MEDIA_JSON.
+Proof. exact fallback_json. Qed.
+Print Assumptions C04_fallback_json.
+
+Theorem C04_fallback_xml : forall n a b,
+  n_preferred n = None -> contains (lower (n_accept n)) s_plus_json = false ->
+  lower (n_accept n) = a ++ s_plus_xml ++ b ->
+  final_preferred n = Some MEDIA_XML.
+Proof. exact fallback_xml. Qed.
+Print Assumptions C04_fallback_xml.
+
+(* Header-bearing errors created without headers= carry exactly their own header, and so does
+   the response composed for them ("its own status and headers"). *)
+Theorem C04_ctor_headers_own :
+  (forall a, ctor_headers (CMethodNotAllowed a) None = Some [(s_Allow, join_comma a)]) /\
+  (forall c cs, ctor_headers (CUnauthorized (c :: cs)) None
+                = Some [(s_WWW_Authenticate, join_comma (c :: cs))]) /\
+  ctor_headers (CUnauthorized []) None = None /\
+  (forall v, ctor_headers (CRetryAfter (Some v)) None = Some [(s_Retry_After, v)]) /\
+  ctor_headers (CRetryAfter None) None = None /\
+  (forall n, ctor_headers (CRange n) None = Some [(s_Content_Range, s_bytes_star ++ n)]) /\
+  ctor_headers CPlain None = None.
+Proof. exact ctor_headers_own. Qed.
+Print Assumptions C04_ctor_headers_own.
+
+Theorem C04_error_response_headers_exact : forall n c e r,
+  r_headers r = [] -> e_headers e = None -> n_preferred n = Some MEDIA_JSON ->
+  r_headers (compose_error n r (with_ctor c e)) =
+  set_headers [] (load_headers (ctor_headers c None))
+  ++ [(s_content_type, MEDIA_JSON); (s_vary, s_Accept)].
+Proof. exact error_response_headers_exact. Qed.
+Print Assumptions C04_error_response_headers_exact.
+
+Example C04_example_vendor_list :
+  let n := {| n_xml := true; n_preferred := None;
+              n_accept := lit "application/vnd.api+JSON, text/csv"; n_resolvable := [] |} in
+  final_preferred n = Some MEDIA_JSON /\
+  final_preferred {| n_xml := true; n_preferred := None;
+                     n_accept := lit "application/atom+xml, image/png;q=0.2";
+                     n_resolvable := [] |} = Some MEDIA_XML.
+Proof. split; reflexivity. Qed.
+
 (* ---- non-vacuity: class 6 derives from class 5 and from HTTPError; handlers were
    registered for 5, then for (5, HTTPError) in one call, then for Exception *)
 Definition ex_hist : list registration :=
